@@ -22,6 +22,7 @@
                             telescoping `sum_vbase`; the mirrored vectors `ccV_sum = 0`, `ccG_sum = s·wcc0`)
   * `cc_pts_strictMono`, `cc_pts_mem`, `cc_pts_first = a`, `cc_pts_last = b`
   * `cc_end_wts`, `cc_end_wts_pos`   closed form and positivity of the two end weights
+  * `idft_reflect`, `cc_wts_symmetric`   w_i = w_{n-1-i}
   * `cc_wts_endpoints`, `cc_wts_scale`  (post-processing, any ifft result)
   partial (DESIGN §7 C18): positivity of the interior weights and exactness to degree n-1 for all n are not proved
   (per-n oracle in the harness).
@@ -675,6 +676,44 @@ theorem cc_end_wts_pos (n : ℕ) (hn : 3 ≤ n) (a b : ℝ) (hab : a < b) :
   have : (0 : ℝ) < ccW0 (α := ℝ) (n - 1) := by unfold ccW0; positivity
   have : (0 : ℝ) < b - a := by linarith
   positivity
+
+/-- the inverse DFT of a real vector is even in the output index: `wcc[s-k] = wcc[k]` -/
+theorem idft_reflect (s : ℕ) (h : Fin s → ℝ) (k : ℕ) (hk : k ≤ s) :
+    ccIdft s Real.pi h (s - k) = ccIdft s Real.pi h k := by
+  by_cases hs : s = 0
+  · subst hs; simp [ccIdft_real]
+  have hsR : (s : ℝ) ≠ 0 := by exact_mod_cast hs
+  simp only [ccIdft_real]
+  congr 1
+  apply Finset.sum_congr rfl
+  intro j _
+  congr 1
+  have : 2 * Real.pi * ((j.val * (s - k) : ℕ) : ℝ) / (s : ℝ)
+      = (j.val : ℕ) * (2 * Real.pi) - 2 * Real.pi * ((j.val * k : ℕ) : ℝ) / (s : ℝ) := by
+    rw [Nat.mul_sub, Nat.cast_sub (Nat.mul_le_mul_left _ hk)]
+    push_cast
+    field_simp
+  rw [this, Real.cos_nat_mul_two_pi_sub]
+
+/-- **the Clenshaw–Curtis weights are symmetric, for every `n ≥ 2`**: `w_i = w_{n-1-i}` -/
+theorem cc_wts_symmetric (n : ℕ) (hn : 2 ≤ n) (a b : ℝ) (i : Fin n) :
+    ccWts n (ccIdft (n - 1) Real.pi (ccH (n - 1))) a b i
+      = ccWts n (ccIdft (n - 1) Real.pi (ccH (n - 1))) a b ⟨n - 1 - i.val, by omega⟩ := by
+  have hi := i.isLt
+  simp only [ccWts]
+  congr 1
+  have e : n - 1 - (n - 1 - i.val) = i.val := by omega
+  rw [e]
+  by_cases h0 : i.val = 0
+  · have : n - 1 - i.val = n - 1 := by omega
+    simp [h0]
+  · by_cases hl : i.val = n - 1
+    · have : n - 1 - i.val = 0 := by omega
+      simp [hl]
+    · have h1 : n - 1 - i.val ≠ n - 1 := by omega
+      simp only [h1, hl, if_false]
+      exact idft_reflect (n - 1) (ccH (α := ℝ) (n - 1)) i.val (by omega)
+
 
 /-- non-vacuity: the three-point rule on [0,2] is Simpson's 1/3, 4/3, 1/3 at the ends, and sums to 2 -/
 example : ∑ i : Fin 3, ccWts 3 (ccIdft 2 Real.pi (ccH 2)) (0 : ℝ) 2 i = 2 - 0 := cc_wts_sum 3 (by norm_num) 0 2
